@@ -614,8 +614,11 @@ pub fn builder_scenarios(tier: Tier, base: &[&'static str]) -> Vec<Scenario> {
 // ---------------------------------------------------------------- C09
 
 pub fn c09_scenarios(tier: Tier) -> Vec<Scenario> {
+    c09_scenarios_for(tier, &["C09"])
+}
+
+pub fn c09_scenarios_for(tier: Tier, base: &'static [&'static str]) -> Vec<Scenario> {
     let b = bounds(tier);
-    let base: &[&'static str] = &["C09"];
     let mut v = Vec::new();
     for (ms, prefill) in [(2usize, 2usize), (3, 3)] {
         let mut c = PoolCfg::simple(ms);
@@ -831,6 +834,8 @@ pub fn spec_for(prop: &str, tier: Tier) -> Option<CheckSpec> {
             // "... or the pool is closed": waiters must be completed by close()
             v.extend(c06_scenarios(tier).into_iter().filter(|s| s.name.contains("close-histories") || s.name.contains("close-vs-waiter") || s.name.contains("resize-to-zero")));
             v.extend(reach_scenarios(tier, &["C02"], false, true));
+            // capacity after histories mixing take / retain with resize and close
+            v.extend(c09_scenarios_for(tier, &["C02"]).into_iter().filter(|s| s.name.contains("retain-take-histories")));
             v
         }
         "C03" => {
